@@ -1,5 +1,5 @@
-import AcraModel.Envelope.SafeGenuine
-import AcraModel.Crypto.Box
+import AcraModel.Envelope.SafeExamples
+import AcraModel.Crypto.ShimLaws
 /-!
 # C03 — any modification of a protected value is detected, never mis-decrypted
 
@@ -386,5 +386,104 @@ theorem reveal_no_misdecrypt (c : CryptoOps) (hs : SealLaws c) (hc : SealCommit 
       · rw [hi] at hid; exact absurd hid (by decide)
       · obtain ⟨ps, _, priv, _, hdec⟩ := decryptKind_struct_ok hk
         rw [(struct_no_misdecrypt c hs hc priv [] internal m k0 ctx0 m0 n0 ct0 hdec hdat h0).1]
+
+/-! ## F. non-vacuity
+
+Concrete values live in `Envelope/SafeExamples.lean`: `exBlock` is a genuine AcraBlock of `exMsg = [1,2,3]`
+under `exKey` built with the Box back end (175 bytes), `exContainer` its serialized container
+(187 bytes), `exDamaged` the container with one byte of the key part changed, `exSpliced` the key
+part of one value with the data part of another, `exBadBackend` the block with an unregistered backend
+id, `exStruct` a well-formed AcraStruct header with three data bytes. -/
+
+set_option maxRecDepth 100000
+
+/-- why `d.length < 2^63` is needed in group B (and only there): on a buffer of `2^63` bytes whose
+declared container length is `2^63`, `ExtractSerializedContainer` succeeds with a *negative* `int` … -/
+theorem extractContainer_bounds_needs_int_range :
+    ∃ (d : Bytes) (n : Int) (cont : Bytes), extractContainer d = .ok (n, cont) ∧ n < 0 :=
+  ⟨hugeHdr ++ List.replicate (2^63) 0, _, _, extractContainer_huge _ List.length_replicate, toInt64_huge⟩
+
+/-- … and the loop would slice out of range. No Go slice is that long. -/
+theorem scan_no_panic_needs_int_range : ∃ (cbs : List Callback) (rest : Bytes), scan cbs rest = .panic :=
+  ⟨_, _, scan_huge (List.replicate (2^63) 0) List.length_replicate⟩
+
+/-- the law bundles of group E are satisfiable: Box has seal authenticity + commitment + message laws,
+the Shim (the algorithm the harness links Acra against) has the authenticity and length laws -/
+example : SealLaws boxOps ∧ SealCommit boxOps ∧ MsgLaws boxOps := ⟨Box.sealLaws, Box.sealCommit, Box.msgLaws⟩
+example : SealLaws shimOps ∧ MsgLaws shimOps := ⟨shim_sealLaws, shim_msgLaws⟩
+
+/-- decoders: both an error and a success occur (block family) -/
+example : extractBlock [] = .err ∧ extractBlock (exBlock ++ [1, 2]) = .ok (175, exBlock) := by decide
+example : decryptBlock boxOps [exKey2, exKey] [] exBlock = .ok exMsg ∧
+    decryptBlock boxOps [exKey2] [] exBlock = .err := by decide
+/-- `decryptBlock` does panic on bytes `extractBlock` rejects (unregistered backend, matching key id):
+the hypothesis of `decryptBlock_extracted_no_panic` is needed and is met by `exBlock` -/
+example : decryptBlock boxOps [exKey] [] exBadBackend = .panic ∧ extractBlock exBadBackend = .err := by decide
+
+/-- struct family -/
+example : validateStruct [] = .err ∧ validateStruct exStruct = .ok () := by decide
+example : getDataLength [] = .panic ∧ getDataLength exStruct = .ok 3 := by decide
+example : extractStruct [] = .err ∧ extractStruct (exStruct ++ [1, 2]) = .ok (148, exStruct) := by decide
+example : decryptStruct boxOps [1] [] exStruct = .err ∧ decryptStruct toyOps [1] [] exStruct = .ok [9, 9, 9] ∧
+    decryptStructRotated toyOps [] exStruct [] = .err ∧ decryptStructRotated toyOps [] exStruct [[1]] = .ok [9, 9, 9] := by
+  decide
+
+/-- container family -/
+example : validateContainer [] = .err ∧ validateContainer exContainer = .ok idBlock := by decide
+example : matchOld [] = .err ∧ matchOld exBlock = .ok (idBlock, 175) ∧ matchOld exStruct = .ok (idStruct, 148) := by decide
+example : getEnvelopeID [] = .err ∧ getEnvelopeID exContainer = .ok (idBlock, false) ∧
+    getEnvelopeID exBlock = .ok (idBlock, true) := by decide
+example : containerInternalLength [] = .panic := by decide
+example : deserialize [] = .err ∧ deserialize (exContainer ++ [1, 2, 3]) = .ok (exBlock, idBlock) := by decide
+example : extractContainer [] = .err ∧
+    extractContainer (exContainer ++ [1, 2, 3]) = .ok (187, exContainer ++ [1, 2, 3]) := by decide
+
+/-- reveal / protect: success on the genuine value (container and bare form), error on the damaged one -/
+example : reveal boxOps exKv exContainer = .ok exMsg ∧ reveal boxOps exKv exBlock = .ok exMsg ∧
+    reveal boxOps exKv exDamaged = .err ∧ reveal boxOps exKv [] = .err := by decide
+example : protect boxOps exKv .block exMsg exRnd = .ok exContainer ∧
+    protect boxOps ⟨none, none, none, none⟩ .block exMsg exRnd = .err := by decide
+
+/-- group E hypotheses are met: the genuine block decrypts (`decryptBlock_genuine`, `reveal_genuine`); its
+data part is the Box ciphertext of `exMsg` (`block_no_misdecrypt`, `reveal_no_misdecrypt`) -/
+example : exBlock.drop (18 + leVal ((exBlock.take 18).drop 16)) = exEncData ∧
+    boxOps.enc (exRnd.take 32) [] exMsg ((exRnd.drop 32).take 12) = some exEncData := by decide
+
+/-- `block_splice_rejected` applies to `exSpliced` (key part of value 1, data part of value 2, data keys
+`5…5 ≠ 6…6`) – and indeed it is rejected -/
+example : boxOps.enc exKey [] (exRnd.take 32) ((exRnd.drop 44).take 12) = some exEncKey ∧
+    boxOps.enc (exRnd2.take 32) [] exMsg2 ((exRnd2.drop 32).take 12) = some exEncData2 ∧
+    exRnd.take 32 ≠ exRnd2.take 32 ∧
+    (exSpliced.take (18 + leVal ((exSpliced.take 18).drop 16))).drop 18 = exEncKey ∧
+    exSpliced.drop (18 + leVal ((exSpliced.take 18).drop 16)) = exEncData2 := by decide
+example : ∀ m, decryptBlock boxOps [exKey2, exKey] [] exSpliced ≠ .ok m :=
+  block_splice_rejected boxOps Box.sealLaws Box.sealCommit _ [] exSpliced exKey (exRnd.take 32)
+    ((exRnd.drop 44).take 12) exEncKey (exRnd2.take 32) [] exMsg2 ((exRnd2.drop 32).take 12) exEncData2
+    (by decide) (by decide) (by decide) (by decide) (by decide)
+
+/-- AcraStruct side of group E: with commitment (`boxOpenOps`: Box seal, permissive unwrap) a concrete
+AcraStruct decrypts and its body is the ciphertext of `exMsg`; with the real back end's laws (Shim) a
+genuine AcraStruct with valid keys, 45-byte public key and 84-byte wrapped key exists
+(hypotheses of `decryptStruct_genuine`, `decryptStruct_genuine_sender`, `struct_no_misdecrypt`) -/
+example : SealLaws boxOpenOps ∧ SealCommit boxOpenOps ∧ decryptStruct boxOpenOps [1] [] exStruct2 = .ok exMsg ∧
+    exStruct2.drop 145 = exBody ∧ boxOpenOps.enc exSymKey [] exMsg (List.replicate 12 5) = some exBody :=
+  ⟨boxOpen_sealLaws, boxOpen_sealCommit, by decide, by decide, by decide⟩
+example : ∃ priv ePriv rest m, shimOps.validPriv priv = true ∧ shimOps.validPriv ePriv = true ∧
+    (shimOps.pubOf ePriv).length = 45 ∧
+    decryptStruct shimOps priv [] (structTag ++ shimOps.pubOf ePriv ++ rest) = .ok m :=
+  struct_witness shimOps shim_sealLaws shim_sealLen shim_msgLaws shim_msgLen shim_keygenLaws
+
+/-- column scan: a buffer that is one genuine container is replaced by the plaintext; the damaged one
+satisfies the hypothesis of `onColumn_damaged_unchanged` (the only position where `%%%` starts is 0,
+and `Process` fails there), so it is returned unchanged -/
+example : scan [decryptCallback boxOps exKv] exContainer = .ok exMsg true :=
+  scan_single _ exContainer 187 exContainer exMsg (by decide) (by decide) (by decide) (by decide)
+example : ∃ hit, onColumn [decryptCallback boxOps exKv] exDamaged = .ok exDamaged hit :=
+  onColumn_damaged_unchanged boxOps exKv exDamaged (by
+    have h : ∀ i, i < exDamaged.length → startsWith containerTag (exDamaged.drop i) = true →
+        process boxOps exKv (exDamaged.drop i) = .err := by decide
+    intro i hi hs m hm
+    rw [h i hi hs] at hm
+    cases hm)
 
 end AcraModel.Props.C03
